@@ -183,3 +183,24 @@ claim("C14", "proof",
       "side (mode validation, mode and seed marshalling) is C20/C04. Fixed by this round: Poisson/floor modes did not transpose.",
       "deductive: symbolic interpretation of clang AST with loop invariants, entry invariants and ghost column sums + SMT; sanitizer replay battery",
       "DESIGN.md 3/C14")
+
+claim("C07", "proof",
+      "On the real C++ through the clang-AST interpreter, per function with contracts (callers see callee contracts as stubs): "
+      "ApplyReaction changes exactly the non-chemostated entries of the chosen cell by the reaction's stoichiometric coefficients "
+      "and nothing else (Skolem pointwise invariant), ApplyDiffusion moves exactly one molecule to the neighbour with chemostats "
+      "exempt and nothing else; DrawAndApplyEvent applies at most one event, the applied event has a strictly positive propensity "
+      "and its interval of partial sums contains the drawn number (a molecule to move exists); ReactionProp = mesh_kr x product of "
+      "falling factorials x(x-1)...(x-sub+1), or 0 when a reactant is short (ghost recursive functions, polynomial identities by "
+      "the rational-function back end), DiffusionProp = amount x outgoing constant, neither reads the chemostat map; "
+      "ComputePropensities stores exactly these values at every channel of the current state (0 towards a missing neighbour); "
+      "Gillespie Iterate = ComputePropensities, then exactly one DrawAndApplyEvent iff a0 > 0, then t' = t + log(1/u)/a0 > t with "
+      "one fresh draw; the inlined whole step keeps the state a vector of non-negative integers (integrality obligations on). "
+      "Tau-leap: Compute_nevt stores at every channel a Poisson wrapper result whose mean is propensity x dt (0 towards a missing "
+      "neighbour); the wrapper draws with exactly that mean, or returns 0 without a draw when the mean is not positive. "
+      "Concrete battery: 3000 steps of the built engine, each checked to be one possible event.",
+      "Statistical statement: reduced to interval membership over consecutive partial sums and to the library's Poisson/uniform "
+      "distributions (A2); no statistical test is run. 'At least one event when a0 > 0' needs a0 to be the exact sum of the "
+      "channels (rounding): not decided. mesh_kr/mesh_kd (volume scaling, interface constants) are C01's rate-law obligations. "
+      "Apply_nevt's net effect (sums over channels) is covered per channel in C02 only. A1.",
+      "deductive: symbolic interpretation of clang AST with loop invariants, callee contracts and ghost functions + SMT/rational-function identities; sanitizer replay battery",
+      "DESIGN.md 3/C07")
